@@ -727,6 +727,7 @@ func (g *gen) totalField(m *Message, f *Field) {
 func (g *gen) totalMessage(m *Message, anyN int) {
 	n := m.GoName
 	g.p("func vhTotal_%s(x *%s, buf []byte) {", n, n)
+	g.p("\tbuf = buf[:len(buf):len(buf)] // no spare capacity behind the input: reading past len must not be masked")
 	g.p("\tmsg := x.ProtoReflect()")
 	g.p("\tmethods := msg.ProtoMethods()")
 	g.p("\tvhAllocReset()")
